@@ -63,16 +63,24 @@ def _subset(b, lit):
 
 
 @contract(P, "models.validity-domain/inside-literature-table",
-          params=[{"cls": c, "dim": d} for c in T8 for d in (1, 2, 3, 4)],
+          params=[{"cls": c, "dim": d, "latlon": False, "temporal": False} for c in T8 for d in (1, 2, 3, 4)]
+          + [{"cls": c, "dim": d, "latlon": True, "temporal": t} for c in T8 for d in (1, 2, 3) for t in (False, True)]
+          + [{"cls": c, "dim": d, "latlon": False, "temporal": True} for c in T8 for d in (2, 3, 4)],
           functions=["covmodel/models.py:<cls>.check_dim", "covmodel/models.py:<cls>.default_opt_arg_bounds",
                      "covmodel/tpl_models.py:<cls>.default_opt_arg_bounds"])
-def validity(ctx, cls, dim):
+def validity(ctx, cls, dim, latlon, temporal):
+    """lat-lon models are 3-D models of the chordal distance (+1 for time): validity is judged in
+    the EFFECTIVE dimension model.dim, whatever `dim` the user passed"""
     maxdim, rows = T8[cls]
     with warnings.catch_warnings(record=True) as w:
         warnings.simplefilter("always")
-        mod = getattr(gs, cls)(dim=dim)
+        mod = getattr(gs, cls)(dim=dim, latlon=latlon, temporal=temporal)
     warned = any("not appropriate" in str(x.message) for x in w)
+    if latlon:
+        ctx.ensure("latlon-effective-dimension", mod.dim == 3 + int(temporal))
+    dim = mod.dim
     valid_dim = maxdim is None or dim <= maxdim
+    ctx.ensure("accepted-without-warning=>valid-dimension[as-constructed]", warned or valid_dim or (cls == "Cubic" and dim == 4))
     if cls == "Cubic" and dim == 4:
         # observation, not claimed: Cubic accepts dim 4 (space + time) without a warning
         ctx.ensure("check_dim-consistent-with-warning", mod.check_dim(dim) == (not warned))
